@@ -131,6 +131,10 @@ class MAMixin(object):
             self.mutate(st, target.base, nb)
             return
         oid = target.oid
+        old = st.store.get(oid)
+        if getattr(old, "shares", None) is not None:
+            # numpy.ma.array(x) / asarray(x) do not copy: an in-place update would also change x (not modelled -> undecided)
+            raise Unsupported("in-place update of an array that may share its buffer with a caller-visible array (made without copy=True)")
         st.log.append(("mutate", target))
         st.set(target, new)
 
@@ -309,7 +313,10 @@ class MAMixin(object):
         if s.kind == "MA":
             yield st, args[0]
         else:
-            yield st, st.alloc(ArrState("MA", s.dtype, s.shape, s.val, lambda c: z3.BoolVal(False)))
+            out = ArrState("MA", s.dtype, s.shape, s.val, lambda c: z3.BoolVal(False))
+            if isinstance(args[0], Ref) and not st.is_fresh(args[0]):
+                out.shares = args[0]
+            yield st, st.alloc(out)
 
     def bi_numpy_ma_is_masked(self, st, args, kw):
         s = self.arr_state(st, args[0])
@@ -366,7 +373,7 @@ class MAMixin(object):
                 yield r
             return
         s = self.arr_state(st, v)
-        if set(kw) - {"mask", "dtype", "fill_value"}:
+        if set(kw) - {"mask", "dtype", "fill_value", "copy"}:
             raise Unsupported("ma.array keywords %s" % sorted(kw))
         d = self.dtype_of_class(kw["dtype"]) if "dtype" in kw else s.dtype
         mask = kw.get("mask")
@@ -378,7 +385,11 @@ class MAMixin(object):
             m = self.arr_state(st, mask)
             base_miss = s.miss if s.kind == "MA" else (lambda c: z3.BoolVal(False))
             miss = lambda c, m=m: z3.Or(base_miss(c), m.val(c) != 0)
-        yield st, st.alloc(ArrState("MA", d, s.shape, s.val, miss))
+        out = ArrState("MA", d, s.shape, s.val, miss)
+        cp = kw.get("copy")
+        if cp is not True and isinstance(v, Ref) and not st.is_fresh(v):
+            out.shares = v
+        yield st, st.alloc(out)
 
     def ma_array_from_list(self, st, v, kw):
         raise Unsupported("ma.array of a list")
